@@ -450,6 +450,13 @@ def gen_package(rng, size=None, simple=False, unicode=None, cli=None, nfiles=Non
         apool = [a for a in ["al1", "b2", "zz", "Short", "x-y"] + ([n for n in UNI_ALIASES if keep(n)] if unicode else []) + (CLI_ALIASES * 2 if cli else [])
                  if go_lower(a) not in keys]
         chosen = []
+        # an alias may be a proper prefix of the name of ANOTHER target or of a namespace: it is still that alias
+        longer = [f["name"] for f in valid if not f["recv"]] + [t["name"] for t in pkg["types"] if t["kind"] == "ns"] + \
+            [oracle_key(f) for f in valid if f["recv"]]
+        pref = [go_lower(n)[:k2] for n in longer if is_ascii(n) for k2 in range(1, len(n)) if ":" not in n[:k2] or k2 > n.index(":") + 1]
+        pref = [a for a in pref if a not in keys and not a.endswith(":")]
+        if pref and rng.random() < 0.6:
+            chosen.append(rng.choice(pref))
         for a in rng.sample(apool, min(len(apool), rng.choice([1, 2, 3]))):
             if go_lower(a) not in {go_lower(x) for x in chosen}:
                 chosen.append(a)
@@ -650,6 +657,56 @@ def gen_magic_lookalike(rng, variant):
     return pkg
 
 
+def gen_with_imports(rng):
+    """a package that mage:import's two packages (one bare, one under an alias) whose target names coincide with
+    names of the magefile's own namespace METHODS and with prefixes of its target names"""
+    pkg = gen_package(rng, unicode=False, cli=False, nfiles=rng.choice([1, 2]), size=rng.choice([4, 6, 8]))
+    used = {go_lower(x) for x in package_identifiers(pkg)} | {go_lower(h["name"]) for h in pkg["helpers"]} | \
+        {go_lower(n) for v in pkg["vars"] for sp in v["specs"] for n in sp["names"]}
+    nss = [t for t in pkg["types"] if real_namespace(t) and exported(t["name"]) and not t.get("tparams")]
+    if not nss:
+        nm = [n for n in NS_NAMES if go_lower(n) not in used][0]
+        used.add(go_lower(nm))
+        nss = [{"name": nm, "kind": "ns", "file": 0, "group": None, "qual": "mg"}]
+        pkg["types"].append(nss[0])
+    t = nss[0]
+    have = {go_lower(f["name"]) for f in pkg["funcs"] if f["recv"] and f["recv"][0] == t["name"]}
+    for m in [m for m in rng.sample(METHOD_NAMES, 3) if go_lower(m) not in have][:2]:
+        f = gen_func(rng, m, [t["name"], rng.random() < 0.3, ""], None)
+        f["file"] = rng.randrange(pkg["nfiles"])
+        pkg["funcs"].append(f)
+    valid = [f for f in pkg["funcs"] if oracle_valid(pkg, f)]
+    akeys = {go_lower(k) for v in pkg["vars"] for sp in v["specs"] for x in sp["values"] if "map" in x for k, _ in x["map"]}
+    plain = {go_lower(f["name"]) for f in valid if not f["recv"]} | akeys
+    method_names = [f["name"] for f in valid if f["recv"]]
+    prefixes = [f["name"][:k] for f in valid if not f["recv"] and is_ascii(f["name"]) for k in range(1, len(f["name"]))]
+    pkg["imports"] = []
+    for name, alias in (("lib", None), ("cloudlib", rng.choice(["cl", "ext"]))):
+        cands = method_names * 2 + prefixes + rng.sample(FUNC_NAMES, 3)
+        rng.shuffle(cands)
+        chosen = []
+        for c in cands:
+            if len(chosen) >= 3:
+                break
+            if go_lower(c) in {go_lower(x) for x in chosen}:
+                continue
+            if alias is None and (go_lower(c) in plain or go_lower(c) in used):
+                continue        # a bare-imported name equal to a local target / alias is a collision (C07)
+            chosen.append(c)
+        funcs = []
+        for c in chosen:
+            f = gen_func(rng, c, None, None)
+            f["params"] = [g for g in f["params"] if g["ty"] in ("string", "int", "bool")]
+            f["imp_prefix"] = "imp~%s." % name
+            f["key_prefix"] = (alias + ":") if alias else ""
+            f["file"] = 0
+            funcs.append(f)
+            if alias is None:
+                plain.add(go_lower(c))
+        pkg["imports"].append({"name": name, "path": "imp/" + name, "alias": alias, "funcs": funcs})
+    return pkg
+
+
 def gen_cli_words(rng, force=None):
     """a package whose targets are spelled like words the command line knows; `force`: that function exists"""
     pkg = gen_package(rng, cli=True, unicode=False)
@@ -814,7 +871,8 @@ def render_func(f):
 
 
 def def_id(f):
-    return (f["recv"][0] + "." if f["recv"] else "") + f["name"]
+    """the identifier the body reports: package (for imported functions), receiver, name"""
+    return f.get("imp_prefix", "") + (f["recv"][0] + "." if f["recv"] else "") + f["name"]
 
 
 TYPE_UNDER = {"ns": "mg.Namespace", "alias-ns": "= mg.Namespace", "struct": "struct{}", "int": "int", "fake": "alt.Namespace"}
@@ -942,13 +1000,22 @@ def render_package(pkg, pname):
         if i == 0:
             head += render_comment(pkg["pkgdoc"])
         head += "package main\n\n"
-        if len(imps) == 1:
+        if i == 0:
+            for imp in pkg.get("imports", []):
+                imps.append('// mage:import%s\n\t_ "example.test/%s/%s"' % ((" " + imp["alias"]) if imp["alias"] else "", pname, imp["path"]))
+        if len(imps) == 1 and "mage:import" not in imps[0]:
             head += "import %s\n\n" % imps[0]
         elif imps:
             head += "import (\n" + "".join("\t%s\n" % x for x in imps) + ")\n\n"
         files["mf_%d.go" % i] = head + text
     if any(t["kind"] == "fake" for t in pkg["types"]):
         files["alt/alt.go"] = "// Package alt has a type called Namespace that is not mg.Namespace.\npackage alt\n\ntype Namespace struct{}\n"
+    for imp in pkg.get("imports", []):
+        text = "\n".join(render_func(f) for f in imp["funcs"])
+        imps = [x for x in (('"context"' if "context." in text else None), ('"time"' if "time." in text else None),
+                            '"example.test/%s/probe"' % pname) if x]
+        files["%s/%s.go" % (imp["path"], imp["name"])] = "// Package %s is mage:import'ed by the magefile.\npackage %s\n\nimport (\n%s)\n\n%s" % (
+            imp["name"], imp["name"], "".join("\t%s\n" % x for x in imps), text)
     if pkg.get("othermg_files"):
         files["mg/mg.go"] = "// Package mg is NOT github.com/magefile/mage/mg.\npackage mg\n\ntype Namespace struct{}\n"
     for name, text in pkg.get("extra_files", {}).items():
@@ -1016,7 +1083,12 @@ def oracle_ambiguous(pkg, f):
 
 
 def oracle_key(f):
-    return ((f["recv"][0] + ":") if f["recv"] else "") + f["name"]
+    return f.get("key_prefix", "") + ((f["recv"][0] + ":") if f["recv"] else "") + f["name"]
+
+
+def oracle_funcs(pkg):
+    """the declarations the oracle judges: the package's own and those of its mage:import'ed packages"""
+    return pkg["funcs"] + [f for imp in pkg.get("imports", []) for f in imp["funcs"]]
 
 
 def resolve_ref(pkg, r):
